@@ -23,8 +23,8 @@
 (* conformance driver parks the real call inside the log writer there):    *)
 (*   PBegin  load R's scalars           -> parked in "reg-stats: ..."      *)
 (*   PCont   load the ingest cells      -> parked in "reg-buf-stats: ..."  *)
-(*   PCont   the three map listings, R.Reset(); load S -> parked in         *)
-(*           "Conns: ..."                                                  *)
+(*   PCont   the three map listings            (-> "wM" if MapWindow)       *)
+(*   PCont   R.Reset(); load S                  -> parked in "Conns: ..."   *)
 (*   PCont   S.Reset()                                                     *)
 (* Counter calls are plain atomics (the maps have their own short          *)
 (* mutexes), so as found they run while the printer is parked.             *)
@@ -40,11 +40,15 @@ CONSTANTS Regs,       \* registration ids (strings)
           RFams,      \* subset of {"v4", "v6"}
           Gens, TTs, LVs,   \* generation / transport / library-version keys (strings)
           Variant, Broken,
+          MapWindow,  \* TRUE: the map listings and R.Reset() are two steps (the real window: a registration counted in
+                      \* between goes into maps that were already listed and are about to be replaced).  No log write lies
+                      \* between the two, so the replay driver cannot park there: the generator uses FALSE (one step) and
+                      \* the window is bound by stage C only.
           MaxPrints, MaxFree
 
 VARIABLES reg,   \* [Regs -> [st, src, fam, gen, tt, lv]]
           S, sgen, R, rgen, rtt, rlv,
-          pr,    \* [pc, n]  pc: "idle" | "wA" | "wB" | "wC"
+          pr,    \* [pc, n]  pc: "idle" | "wA" | "wB" | "wM" | "wC"
           rep,   \* [S, R, G, T, L -> [cell -> Int]] ghost: what the log has reported (or ResetAll discarded) of each epoch cell
           free,  \* number of Free calls so far
           conns, \* ghost: connections open in the singleton's sense
@@ -186,7 +190,19 @@ PCont ==
      /\ pr' = [pr EXCEPT !.pc = "wB"] /\ rep' = ReportR(RLine2)
      /\ UNCHANGED <<reg, S, sgen, R, rgen, rtt, rlv, free, conns>>
      /\ obs' = [a |-> "Print", lines |-> <<Line2>>, maps |-> <<>>, done |-> FALSE, st |-> Proj(S, sgen, R, rgen, rtt, rlv)]
-  \/ /\ pr.pc = "wB"          \* the map listings, R.Reset(), then S's own line is loaded
+  \/ /\ pr.pc = "wB" /\ MapWindow      \* the map listings (each under its own read lock)
+     /\ pr' = [pr EXCEPT !.pc = "wM"]
+     /\ rep' = [rep EXCEPT !.G = Plus(@, rgen, Gens), !.T = Plus(@, rtt, TTs), !.L = Plus(@, rlv, LVs)]
+     /\ UNCHANGED <<reg, S, sgen, R, rgen, rtt, rlv, free, conns>>
+     /\ obs' = [a |-> "Print", lines |-> <<>>, maps |-> <<[gen |-> Sparse(rgen), tt |-> Sparse(rtt), lv |-> Sparse(rlv)]>>, done |-> FALSE,
+                st |-> Proj(S, sgen, R, rgen, rtt, rlv)]
+  \/ /\ pr.pc = "wM"                   \* R.Reset(): the scalars are zeroed, the maps replaced; then S's own line is loaded
+     /\ pr' = [pr EXCEPT !.pc = "wC"]
+     /\ R' = RResetTo(R) /\ rgen' = Z(Gens) /\ rtt' = Z(TTs) /\ rlv' = Z(LVs)
+     /\ rep' = [rep EXCEPT !.S = Plus(@, S, SEpoch)]
+     /\ UNCHANGED <<reg, S, sgen, free, conns>>
+     /\ obs' = [a |-> "Print", lines |-> <<LineS>>, maps |-> <<>>, done |-> FALSE, st |-> Proj(S, sgen, R', rgen', rtt', rlv')]
+  \/ /\ pr.pc = "wB" /\ ~MapWindow     \* both of the above in one step
      /\ pr' = [pr EXCEPT !.pc = "wC"]
      /\ R' = RResetTo(R) /\ rgen' = Z(Gens) /\ rtt' = Z(TTs) /\ rlv' = Z(LVs)
      /\ rep' = [rep EXCEPT !.S = Plus(@, S, SEpoch), !.G = Plus(@, rgen, Gens), !.T = Plus(@, rtt, TTs), !.L = Plus(@, rlv, LVs)]
@@ -217,11 +233,16 @@ vars == <<reg, S, sgen, R, rgen, rtt, rlv, pr, rep, free, conns, obs>>
 view == <<reg, S, sgen, R, rgen, rtt, rlv, pr, rep, free, conns>>
 Spec == Init /\ [][Next]_vars
 
+\* symmetry breaking for the bounded configurations: registration ids start in order
+Order == <<"r1", "r2", "r3", "r4">>
+Canon == \A i \in 1..(Len(Order) - 1) :
+           (Order[i] \in Regs /\ Order[i + 1] \in Regs) => (reg[Order[i + 1]].st # "idle" => reg[Order[i]].st # "idle")
+
 \* ------------------------------------------------------------------ properties
 NIn(states) == Cardinality({r \in Regs : reg[r].st \in states})
 Quiet == pr.pc = "idle"
 TypeOK == /\ (\A x \in SCells : S[x] \in -4..64) /\ (\A y \in RCells : R[y] \in -4..64)
-          /\ pr.pc \in {"idle", "wA", "wB", "wC"}
+          /\ pr.pc \in {"idle", "wA", "wB", "wM", "wC"}
 \* gauges: exactly the registrations that are valid and not yet expired, in both objects and per generation; open connections
 ActiveExact == /\ S["activeRegistrations"] = NIn({"active"}) /\ R["activeRegistrations"] = NIn({"active"})
                /\ \A g \in Gens : sgen[g] = Cardinality({r \in Regs : reg[r].st = "active" /\ reg[r].gen = g})
@@ -259,6 +280,7 @@ NoDoubleCount == Quiet => \A ox \in Audited : Books(ox) <= Happened(ox[1], ox[2]
 \* ... and (INTENDED) equals it: no event is lost between a line's loads and Reset(), no kept counter goes unprinted
 Ledger == Quiet => \A ox \in Audited : Books(ox) = Happened(ox[1], ox[2])
 LedgerPrinted == Quiet => \A ox \in Audited \ {<<"R", "newBlocklistedPhantomReg">>} : Books(ox) = Happened(ox[1], ox[2])
+\* (INTENDED; as found a registration counted between the listings and the replacement of the maps is lost)
 MapLedger == Quiet => \A g \in Gens : rep.G[g] + rgen[g] = Cardinality({r \in Regs : reg[r].st \in {"active", "expired"} /\ reg[r].gen = g})
 \* (INTENDED) every registration a worker handled ends in exactly one of R's outcome counters
 RegConservation == Quiet =>
@@ -281,7 +303,7 @@ LedgerRecOK(e) ==
 \* Divergences of the code from "intended" that the as_found variant models:
 \*  R1 lost update    Stats.PrintStats / RegistrationStats.PrintAndReset load each counter for the line and later
 \*                    store 0: an increment in between is neither printed nor kept (every epoch counter of S and R;
-\*                    the maps between their listing and their replacement).
+\*                    the maps between their listing and their replacement, MapWindow).
 \*  R2 unprinted      newBlocklistedPhantomReg is counted and reset but appears in no log line.
 \*  R4 epochs        R is reset before S's line is even loaded: a registration counted in between belongs to R's next epoch
 \*                    and S's current one (newRegistrations / newDupRegistrations of the two objects differ per epoch).
